@@ -33,6 +33,7 @@ var brMasks = map[string]string{
 	"C05": "000000011111",
 	"C06": "000001100111",
 	"C16": "111000000010",
+	"C18": "111111111111",
 	"C19": "111111111111",
 	"C20": "000010000010",
 }
@@ -218,6 +219,9 @@ func (w *brWorld) history(nops int) {
 			}
 			if r.Chance(3) {
 				hashes = append(hashes, r.Bytes(31))
+			}
+			if r.Chance(6) {
+				hashes = nil // an empty batch: still a voted proposal
 			}
 			tipBefore := voted()
 			storedBefore := map[uint64][]byte{}
@@ -649,6 +653,9 @@ func (w *brWorld) history(nops int) {
 		// ------------------------------------------------ relayer membership and elections
 		default:
 			w.relayerOp()
+		}
+		if w.focus == "C18" && (r.Chance(12) || step == nops-1) {
+			exportImportCheck(w.e, w.st, []string{"relayer", "bitcoin"}, w.recs)
 		}
 		if r.Chance(18) || step == nops-1 {
 			d := w.dump()
